@@ -14,16 +14,20 @@ reliable message channel; what is tied here is Cloak's own logic around it (`gen
 set_option linter.unusedSimpArgs false
 set_option linter.unusedVariables false
 
+/-- closes `extractedBoolTerm = true ↔ arithmetic`, whatever Boolean shape the Go condition has -/
+macro "gen_bool" : tactic => `(tactic|
+  (simp only [Bool.and_eq_true, Bool.or_eq_true, Bool.not_eq_true', decide_eq_true_eq, decide_eq_false_iff_not]; omega))
+
 namespace C05
 open Rec Gen.Record
 
 /-! ## 1. Extracted facts mean what the proofs need -/
 
 theorem gen_shortbuf (b : Nat) : tlsReadShortBuf (b : Int) = true ↔ b < 5 := by
-  unfold tlsReadShortBuf; simp only [decide_eq_true_eq]; omega
+  unfold tlsReadShortBuf; gen_bool
 
 theorem gen_oversize (d b : Nat) : tlsReadOversize (d : Int) (b : Int) = true ↔ b < d := by
-  unfold tlsReadOversize; simp only [decide_eq_true_eq]; omega
+  unfold tlsReadOversize; gen_bool
 
 theorem gen_hdr_len (d b : Int) : tlsReadHdrLo d b = 0 ∧ sliceLen (tlsReadHdrLo d b) (tlsReadHdrHi d b) = 5 := by
   unfold sliceLen tlsReadHdrLo tlsReadHdrHi; omega
@@ -36,9 +40,9 @@ theorem gen_len_field : tlsReadLenLo.toNat = 3 ∧ tlsReadLenHi.toNat = 5 ∧ sl
   unfold sliceLen tlsReadLenLo tlsReadLenHi; omega
 
 theorem gen_toolong (n : Nat) : tlsWriteTooLong (n : Int) = true ↔ 16640 < n := by
-  unfold tlsWriteTooLong; simp only [decide_eq_true_eq]
+  unfold tlsWriteTooLong
   have : (2 : Int) ^ (14 : Int).toNat = 16384 := by decide
-  rw [this]; omega
+  simp only [this]; gen_bool
 
 theorem gen_len_bytes (n : Nat) (h : n < 65536) :
     (tlsWriteLenHi (n : Int)).toNat = n / 256 ∧ (tlsWriteLenLo (n : Int)).toNat = n % 256 := by
